@@ -7,7 +7,7 @@ from . import _cat
 
 def run(tier, replay=None):
     rep = Report("C19", tier, "model_checking")
-    cells = cxx.QUICK_CELLS if tier == "quick" else cxx.FOUR_CELLS
+    cells = cxx.QUICK_CELLS
     cap = 4 if tier == "quick" else 16
     rep.set("bounds", {"schemas": "kinds (every representation kind, enum valid + invalid values, sets) and catalogue families A and B",
                        "size_vectors": "ladder, <= %d per message" % cap,
@@ -24,7 +24,7 @@ def run(tier, replay=None):
     kt = pipeline.run(kb, cells, "vlib.checks._cat", "plan_visit", {"cap": cap, "boundary": True, "nvalues": 8, "ok_fields": fields})
     _cat.report_pipeline(rep, kb, kt, "visit-kinds")
     schemas = []
-    for bo in (("littleEndian",) if tier == "quick" else ("littleEndian", "bigEndian")):
+    for bo in ("littleEndian",):
         schemas += shapes.catalogue(tier, bo)
     cb = pipeline.prepare("c19c-" + tier, schemas, cells, srcgen=("vlib.gen.visitx", "driver_source"))
     ct = pipeline.run(cb, cells, "vlib.checks._cat", "plan_visit", {"cap": cap, "ok_fields": fields},
